@@ -8,6 +8,7 @@ mutual
     match j with
     | .str "observe" => pure .observe
     | .str "raise" => pure .raise
+    | .str "abort" => pure .abort
     | _ =>
       let a ← jArr j
       let tag ← jStr a[0]!
@@ -16,6 +17,7 @@ mutual
       | "outermost" => pure (.outermost (← jBool a[1]!) (← jBool a[2]!) (← parseHooks a[3]!) (← jBool a[4]!))
       | "child" => pure (.child (← jBool a[1]!) (← parseHooks a[2]!))
       | "fill" => pure (.fill (← parseActs a[1]!))
+      | "catch" => pure (.catch (← parseActs a[1]!))
       | t => throw s!"bad call tag {t}"
   partial def parseActs (j : Json) : Except String Acts := do
     let a ← jArr j
@@ -37,9 +39,10 @@ def showEvent : Event → Option String
   | .refused => some "refused"
   | .enter _ => none
   | .leave _ => none
+  | .caught => some "caught"
 
 def showRes (r : Res) : String :=
-  " ".intercalate (r.events.filterMap showEvent) ++ s!" | raised={pyBool r.raised} cell={showCell r.cell}"
+  " ".intercalate (r.events.filterMap showEvent) ++ s!" | raised={if r.aborted then "A" else pyBool r.raised} cell={showCell r.cell}"
 
 /-- {"p":"C13","k":"tree","tree":<call>}  or  {"k":"threads","trees":[<call>...]} (sequential per-thread expectations). -/
 def handle (j : Json) : Except String String := do
